@@ -9,6 +9,7 @@ agree after each call; (b) pure-Python two-phase reference computed from the pre
 snapshot (catches order-independent defects); (c) Wire.prepared empty after every call, no
 wire prepared twice in one edge; (d) total_clks advances by exactly the executed cycles.
 """
+import copy
 import random
 
 from ..core import Violation, shrink_list, h64
@@ -30,7 +31,7 @@ REAL = ['py4hw.simulation.Simulator.clk/_clk_cycle/stop', 'py4hw.base.Wire.prepa
 STUB = ['stimulus (wire.put between clk calls)', 'cancelling listener']
 ASSUMPTIONS = ['inputs change only between clk calls, identically in both systems',
                'reference models in dsim/catalog.py']
-PROBES = ['bidir_sequential', 'simulator_fetched_in_clock', 'fsm_block', 'swap_pair', 'ring', 'memory', 'split_clk', 'stop_cancel', 'multi_driver']
+PROBES = ['parameter_reassigned_after_read', 'bidir_sequential', 'simulator_fetched_in_clock', 'fsm_block', 'swap_pair', 'ring', 'memory', 'split_clk', 'stop_cancel', 'multi_driver']
 
 
 def gen(rs, tier, index):
@@ -40,6 +41,7 @@ def gen(rs, tier, index):
     # FSM blocks: behavioural library blocks (no catalogue model: the twin is their oracle) and the message sequencer
     seqk += [k for k in kinds_with(tag='transpiled')] + [KINDS['MsgSequencer']]
     seqk += kinds_with(tag='simpeek')      # a monitor block that fetches the simulator from inside clock()
+    seqk += kinds_with(tag='param')        # a parameterised block that forwards its parameter by reference (one or two levels)
     shape = rng.random()
     if shape < 0.2:
         d = swap_ring_design(rng)
@@ -81,6 +83,10 @@ def gen(rs, tier, index):
         faults = [f for f in ('resort', 'sim_restart') if fr.random() < 0.12]
         steps.append({'vec': vec, 'n': n, 'parts': parts, 'stop_at': stop_at, 'faults': faults,
                       'pseed': rs.sub('perm%d' % si)})
+        pk = [nd for nd in d['nodes'] if nd['kind'] == 'ParamScaler']
+        if pk and fr.random() < 0.3:
+            # the parameter is re-assigned at the top of the block between clk() calls (after it has been read)
+            steps[-1]['param'] = [fr.choice(pk)['id'], fr.choice([0, 1, 3, 7, 100])]
     return {'design': d, 'order': order, 'steps': steps}
 
 
@@ -142,7 +148,7 @@ def compare_states(real, twin, step, where):
 
 
 def run(scn, log, st):
-    d = scn['design']
+    d = copy.deepcopy(scn['design'])        # parameter updates are applied to a private copy
     log.add('design', h64(repr(sorted((n['id'], n['kind'], tuple(n['ins'])) for n in d['nodes']))), 'order', h64(scn['order']))
     kinds = [n['kind'] for n in d['nodes']]
     if d.get('ring'):
@@ -181,6 +187,15 @@ def run(scn, log, st):
                 with quiet():
                     sim = seams.restart_simulator(b.hw, st)
                 stopper.sim = sim
+        if step.get('param'):
+            nid, v = step['param']
+            nd = next((x for x in d['nodes'] if x['id'] == nid), None)
+            if nd is not None and nid in b.objs:
+                b.objs[nid].addParameter('STEP', v)
+                twin.b.objs[nid].addParameter('STEP', v)
+                nd['p'] = dict(nd['p'], step=v)
+                st.fault('param_update')
+                st.probe('parameter_reassigned_after_read')
         sh = seams.EdgeShuffler(sim, rng, st)
         b.set_inputs(step['vec'])
         twin.set_inputs(step['vec'])
